@@ -471,8 +471,16 @@ pub struct AddrCase {
     pub range: RangeCase,
 }
 
+/// Names whose first or last character is a blank that is not the ASCII space (legal in a
+/// sheet name; the general alphabet keeps names blank-free at the edges).
+fn edge_blank_name() -> BoxedStrategy<String> {
+    (prop::sample::select(vec!["", "\u{3000}", "\u{a0}", " "]), "[A-Za-z][A-Za-z0-9]{0,6}", prop::sample::select(vec!["", "\u{3000}", "\u{a0}", " "]))
+        .prop_map(|(a, b, c)| format!("{}{}{}", a, b, c))
+        .boxed()
+}
+
 fn addr_case(t: Tier) -> BoxedStrategy<AddrCase> {
-    (sheet_name(), range_case(t))
+    (prop_oneof![9 => sheet_name(), 1 => edge_blank_name()], range_case(t))
         .prop_map(|(sheet, range)| AddrCase { sheet, range })
         .boxed()
 }
@@ -552,6 +560,9 @@ fn check_addr(c: &AddrCase, obs: &mut Obs) -> Verdict {
     if c.sheet.contains('"') {
         obs.class("name-with-dquote");
     }
+    if c.sheet.starts_with(char::is_whitespace) || c.sheet.ends_with(char::is_whitespace) {
+        obs.class("name-with-edge-blank");
+    }
     let feature = if c.sheet.starts_with('"') || c.sheet.ends_with('"') {
         "edge-dquote"
     } else if c.sheet.contains('\'') {
@@ -624,6 +635,32 @@ fn check_addr(c: &AddrCase, obs: &mut Obs) -> Verdict {
                     format!("addr/{}/address-print", feature),
                     format!("Address printed {:?} which splits to ({:?},{:?})", printed, s2, r2),
                 );
+            }
+        }
+    }
+    // (e) chart series formula: what Address prints is what a chart part stores; parsing it
+    // back through charts::Formula must give the same sheet and range
+    if only_cells {
+        match guard(|| {
+            let mut a = Address::default();
+            a.set_address(join_address(&c.sheet, &range));
+            let printed = a.get_address();
+            let mut f = umya_spreadsheet::structs::drawing::charts::Formula::default();
+            f.set_address_str(printed.clone());
+            (printed, f.get_address_str())
+        }) {
+            Err(p) => return Verdict::fail(format!("addr/{}/chart-formula/panic:{}", feature, p.site()), p.short()),
+            Ok((printed, back)) => {
+                let (s2, r2) = split_address(&back);
+                if s2 != c.sheet || r2 != range {
+                    // a name holding two consecutive apostrophes is printed quoted but not
+                    // doubled by Address::get_address, and un-doubled again on parsing
+                    let feature = if c.sheet.contains("''") { "doubled-apostrophe" } else { feature };
+                    return Verdict::fail(
+                        format!("addr/{}/chart-formula", feature),
+                        format!("chart formula {:?} re-read and printed as {:?} = ({:?},{:?}), expected ({:?},{:?})", printed, back, s2, r2, c.sheet, range),
+                    );
+                }
             }
         }
     }
